@@ -350,11 +350,13 @@ class Statement(object):
 
     def fit_operand_width(self):
         """
-        The operand field of an instruction is as wide as the statement's size
-        says it is, less the op code and post byte, however the value was spelt
-        in the source. A value that does not fit that width is an error.
+        The operand field of an instruction (or of a single FCB or FDB value) is
+        as wide as the statement's size says it is, less the op code and post byte,
+        however the value was spelt in the source. A value that does not fit that
+        width is an error.
         """
-        if self.instruction.is_pseudo or self.instruction.is_special:
+        single_value = self.instruction.is_multi_byte or self.instruction.is_multi_word
+        if (self.instruction.is_pseudo and not single_value) or self.instruction.is_special:
             return
         if not self.code_pkg.additional.is_numeric():
             return
